@@ -126,20 +126,26 @@ theorem md_getD_append_right (l1 : List Nat) (x : Nat) : (l1 ++ [x]).getD l1.len
 -- the native-stack invariant -------------------------------------------------------------------------------------
 
 /-- The machine's memory is `pre ++ [lower]` where `lower` occupies `[base, base + size)` and no region of `pre`
-    holds a non-empty range inside it; rsp is `8 * slots.length` below the top of `lower`; the 8-byte slots from the
-    top downwards hold `slots` (first: the return address of `Rel0.ret`, then the pushed values). -/
-structure md_NS (pre : List Region) (base size : Nat) (σ : St) (slots : List Nat) : Prop where
+    holds a non-empty range inside it; `top` (inside `lower`) is the upper end of the part of the native stack the
+    current arm works on: rsp is `8 * slots.length` below `top`, the 8-byte slots from `top` downwards hold `slots`
+    (first: the return address of `Rel0.ret`, then the pushed values); the bytes of `lower` from `top` upwards — the
+    frames of the callers — are `hi` (fixed throughout: pushes write below rsp). -/
+structure md_NS (pre : List Region) (base size top : Nat) (hi : Nat → BitVec 8) (σ : St) (slots : List Nat) : Prop where
   mem : ∃ lower : Region, σ.mem = pre ++ [lower] ∧ lower.base = base ∧ lower.bytes.size = size ∧
-    ∀ j, j < slots.length → ∀ k, k < 8 → lower.bytes.getD (size - 8 * (j + 1) + k) 0 = (leBytes (slots.getD j 0) 8).getD k 0
+    (∀ j, j < slots.length → ∀ k, k < 8 →
+      lower.bytes.getD (top - base - 8 * (j + 1) + k) 0 = (leBytes (slots.getD j 0) 8).getD k 0) ∧
+    (∀ j, top - base ≤ j → j < size → lower.bytes.getD j 0 = hi j)
   pre : ∀ r ∈ pre, ∀ a w, base ≤ a → a + w ≤ base + size → 0 < w → r.contains a w = false
-  room : 8 * slots.length ≤ size
-  sp : (σ.get 4).toNat + 8 * slots.length = base + size
+  room : base + 8 * slots.length ≤ top
+  top_le : top ≤ base + size
+  sp : (σ.get 4).toNat + 8 * slots.length = top
   bound : base + size < 2 ^ 64
 
-theorem md_ns_congr {pre : List Region} {base size : Nat} {σ σ' : St} {slots : List Nat}
-    (h : md_NS pre base size σ slots) (hm : σ'.mem = σ.mem) (hr : σ'.get 4 = σ.get 4) : md_NS pre base size σ' slots := by
-  obtain ⟨hmem, hpre, hroom, hsp, hb⟩ := h
-  exact ⟨by rw [hm]; exact hmem, hpre, hroom, by rw [hr]; exact hsp, hb⟩
+theorem md_ns_congr {pre : List Region} {base size top : Nat} {hi : Nat → BitVec 8} {σ σ' : St} {slots : List Nat}
+    (h : md_NS pre base size top hi σ slots) (hm : σ'.mem = σ.mem) (hr : σ'.get 4 = σ.get 4) :
+    md_NS pre base size top hi σ' slots := by
+  obtain ⟨hmem, hpre, hroom, htop, hsp, hb⟩ := h
+  exact ⟨by rw [hm]; exact hmem, hpre, hroom, htop, by rw [hr]; exact hsp, hb⟩
 
 theorem md_list8 (f : Nat → BitVec 8) (l : List (BitVec 8)) (hl : l.length = 8) (h : ∀ k, k < 8 → f k = l.getD k 0) :
     (List.range 8).map f = l := by
@@ -150,11 +156,11 @@ theorem md_list8 (f : Nat → BitVec 8) (l : List (BitVec 8)) (hl : l.length = 8
     simp at h0 h1 h2 h3 h4 h5 h6 h7
     simp [List.range, List.range.loop, h0, h1, h2, h3, h4, h5, h6, h7]
 
-/-- reading slot `j` (counted from the top) -/
-theorem md_ns_read {pre : List Region} {base size : Nat} {σ : St} {slots : List Nat}
-    (h : md_NS pre base size σ slots) (j : Nat) (hj : j < slots.length) :
-    readMem σ.mem (base + size - 8 * (j + 1)) 8 = some (leBytes (slots.getD j 0) 8) := by
-  obtain ⟨⟨lower, hm, hb, hs, hsl⟩, hpre, hroom, hsp, hbd⟩ := h
+/-- reading slot `j` (counted from `top` downwards) -/
+theorem md_ns_read {pre : List Region} {base size top : Nat} {hi : Nat → BitVec 8} {σ : St} {slots : List Nat}
+    (h : md_NS pre base size top hi σ slots) (j : Nat) (hj : j < slots.length) :
+    readMem σ.mem (top - 8 * (j + 1)) 8 = some (leBytes (slots.getD j 0) 8) := by
+  obtain ⟨⟨lower, hm, hb, hs, hsl, _⟩, hpre, hroom, htop, hsp, hbd⟩ := h
   rw [hm, md_readMem_last pre lower _ 8 (fun r hr => hpre r hr _ 8 (by omega) (by omega) (by omega))
     (by simp [Region.contains, hb, hs]; omega)]
   congr 1
@@ -164,11 +170,45 @@ theorem md_ns_read {pre : List Region} {base size : Nat} {σ : St} {slots : List
   congr 1
   omega
 
-theorem md_ns_push {pre : List Region} {base size : Nat} {σ : St} {slots : List Nat}
-    (h : md_NS pre base size σ slots) (hroom : 8 * (slots.length + 1) ≤ size) (v : BitVec 64) :
+/-- two memories that differ only in the last region, whose bytes agree on the range read, read the same -/
+theorem md_readMem_agree (pre : List Region) (l1 l2 : Region) (a w : Nat) (hb : l2.base = l1.base)
+    (hs : l2.bytes.size = l1.bytes.size)
+    (h : l1.contains a w = true → ∀ k, k < w → l2.bytes.getD (a - l1.base + k) 0 = l1.bytes.getD (a - l1.base + k) 0) :
+    readMem (pre ++ [l2]) a w = readMem (pre ++ [l1]) a w := by
+  unfold readMem
+  rw [List.find?_append, List.find?_append]
+  cases pre.find? (fun r => r.contains a w) with
+  | some r => rfl
+  | none =>
+    have hc : l2.contains a w = l1.contains a w := by simp only [Region.contains, hb, hs]
+    by_cases h1 : l1.contains a w = true
+    · have h2 : l2.contains a w = true := by rw [hc]; exact h1
+      simp only [Option.none_or, List.find?, h1, h2]
+      congr 1
+      apply List.map_congr_left
+      intro k hk
+      rw [hb]
+      exact h h1 k (List.mem_range.mp hk)
+    · have h2 : ¬ l2.contains a w = true := by rw [hc]; exact h1
+      simp only [Option.none_or, List.find?, h1, h2]
+
+/-- everything at or above `top` reads the same in two states with the same invariant parameters -/
+theorem md_ns_above {pre : List Region} {base size top : Nat} {hi : Nat → BitVec 8} {σ σ' : St} {slots slots' : List Nat}
+    (h : md_NS pre base size top hi σ slots) (h' : md_NS pre base size top hi σ' slots') (a w : Nat) (ha : top ≤ a) :
+    readMem σ'.mem a w = readMem σ.mem a w := by
+  obtain ⟨⟨l1, hm1, hb1, hs1, _, hhi1⟩, _, hroom1, _, _, _⟩ := h
+  obtain ⟨⟨l2, hm2, hb2, hs2, _, hhi2⟩, _, _, _, _, _⟩ := h'
+  rw [hm1, hm2]
+  apply md_readMem_agree pre l1 l2 a w (by rw [hb1, hb2]) (by rw [hs1, hs2])
+  intro hc k hk
+  simp only [Region.contains, Bool.and_eq_true, decide_eq_true_eq] at hc
+  rw [hhi1 _ (by omega) (by omega), hhi2 _ (by omega) (by omega)]
+
+theorem md_ns_push {pre : List Region} {base size top : Nat} {hi : Nat → BitVec 8} {σ : St} {slots : List Nat}
+    (h : md_NS pre base size top hi σ slots) (hroom : base + 8 * (slots.length + 1) ≤ top) (v : BitVec 64) :
     ∃ σ1, X86.push σ v = some σ1 ∧ σ1.reg = (σ.set 4 (σ.get 4 - 8)).reg ∧ σ1.rip = σ.rip ∧ σ1.flags = σ.flags ∧
-      σ1.log = σ.log ∧ σ1.misaligned = σ.misaligned ∧ md_NS pre base size σ1 (slots ++ [v.toNat]) := by
-  obtain ⟨⟨lower, hm, hb, hs, hsl⟩, hpre, _, hsp, hbd⟩ := h
+      σ1.log = σ.log ∧ σ1.misaligned = σ.misaligned ∧ md_NS pre base size top hi σ1 (slots ++ [v.toNat]) := by
+  obtain ⟨⟨lower, hm, hb, hs, hsl, hhi⟩, hpre, _, htop, hsp, hbd⟩ := h
   have hspv : (σ.get 4 - 8).toNat = (σ.get 4).toNat - 8 := by
     rw [BitVec.toNat_sub]
     have : (8 : BitVec 64).toNat = 8 := rfl
@@ -190,33 +230,39 @@ theorem md_ns_push {pre : List Region} {base size : Nat} {σ : St} {slots : List
   · unfold X86.push
     simp only [X86.RSP]
     rw [hw]
-  · refine ⟨⟨_, rfl, by rw [md_writeRegion_base, hb], by rw [md_writeRegion_size, hs], ?_⟩, hpre, by simpa using hroom, ?_, hbd⟩
+  · refine ⟨⟨_, rfl, by rw [md_writeRegion_base, hb], by rw [md_writeRegion_size, hs], ?_, ?_⟩, hpre, by simpa using hroom,
+      htop, ?_, hbd⟩
     · intro j hj k hk
       rw [md_writeRegion_getD, md_leBytes_length, hb, hs, hspv]
       simp only [List.length_append, List.length_cons, List.length_nil] at hj
       by_cases hjl : j = slots.length
       · subst hjl
-        have hc : (σ.get 4).toNat - 8 - base ≤ size - 8 * (slots.length + 1) + k ∧
-            size - 8 * (slots.length + 1) + k < (σ.get 4).toNat - 8 - base + 8 ∧ size - 8 * (slots.length + 1) + k < size := by omega
+        have hc : (σ.get 4).toNat - 8 - base ≤ top - base - 8 * (slots.length + 1) + k ∧
+            top - base - 8 * (slots.length + 1) + k < (σ.get 4).toNat - 8 - base + 8 ∧
+            top - base - 8 * (slots.length + 1) + k < size := by omega
         rw [if_pos hc]
-        have : size - 8 * (slots.length + 1) + k - ((σ.get 4).toNat - 8 - base) = k := by omega
+        have : top - base - 8 * (slots.length + 1) + k - ((σ.get 4).toNat - 8 - base) = k := by omega
         rw [this]
         simp
       · have hj' : j < slots.length := by omega
-        have hc : ¬ ((σ.get 4).toNat - 8 - base ≤ size - 8 * (j + 1) + k ∧
-            size - 8 * (j + 1) + k < (σ.get 4).toNat - 8 - base + 8 ∧ size - 8 * (j + 1) + k < size) := by omega
+        have hc : ¬ ((σ.get 4).toNat - 8 - base ≤ top - base - 8 * (j + 1) + k ∧
+            top - base - 8 * (j + 1) + k < (σ.get 4).toNat - 8 - base + 8 ∧ top - base - 8 * (j + 1) + k < size) := by omega
         rw [if_neg hc, hsl j hj' k hk, md_getD_append_left _ _ _ hj']
+    · intro j hj1 hj2
+      rw [md_writeRegion_getD, md_leBytes_length, hb, hs, hspv]
+      have hc : ¬ ((σ.get 4).toNat - 8 - base ≤ j ∧ j < (σ.get 4).toNat - 8 - base + 8 ∧ j < size) := by omega
+      rw [if_neg hc, hhi j hj1 hj2]
     · show ((σ.set 4 (σ.get 4 - 8)).get 4).toNat + _ = _
       rw [get_set_eq σ 4 _ (by omega), hspv]
       simp only [List.length_append, List.length_cons, List.length_nil]
       omega
 
-theorem md_ns_pop {pre : List Region} {base size : Nat} {σ : St} {slots : List Nat} {v : BitVec 64}
-    (h : md_NS pre base size σ (slots ++ [v.toNat])) :
-    X86.pop σ = some (v, σ.set 4 (σ.get 4 + 8)) ∧ md_NS pre base size (σ.set 4 (σ.get 4 + 8)) slots := by
+theorem md_ns_pop {pre : List Region} {base size top : Nat} {hi : Nat → BitVec 8} {σ : St} {slots : List Nat} {v : BitVec 64}
+    (h : md_NS pre base size top hi σ (slots ++ [v.toNat])) :
+    X86.pop σ = some (v, σ.set 4 (σ.get 4 + 8)) ∧ md_NS pre base size top hi (σ.set 4 (σ.get 4 + 8)) slots := by
   have hlen : (slots ++ [v.toNat]).length = slots.length + 1 := by simp
   have hr := md_ns_read h slots.length (by omega)
-  obtain ⟨⟨lower, hm, hb, hs, hsl⟩, hpre, hroom, hsp, hbd⟩ := h
+  obtain ⟨⟨lower, hm, hb, hs, hsl, hhi⟩, hpre, hroom, htop, hsp, hbd⟩ := h
   rw [hlen] at hroom hsp
   have hspv : (σ.get 4 + 8).toNat = (σ.get 4).toNat + 8 := by
     rw [BitVec.toNat_add]
@@ -225,10 +271,10 @@ theorem md_ns_pop {pre : List Region} {base size : Nat} {σ : St} {slots : List 
   constructor
   · unfold X86.pop
     simp only [X86.RSP]
-    have : (σ.get 4).toNat = base + size - 8 * (slots.length + 1) := by omega
+    have : (σ.get 4).toNat = top - 8 * (slots.length + 1) := by omega
     rw [this, hr]
     simp [md_ofNat_leValue]
-  · refine ⟨⟨lower, hm, hb, hs, ?_⟩, hpre, by omega, ?_, hbd⟩
+  · refine ⟨⟨lower, hm, hb, hs, ?_, hhi⟩, hpre, by omega, htop, ?_, hbd⟩
     · intro j hj k hk
       rw [hsl j (by omega) k hk, md_getD_append_left _ _ _ hj]
     · rw [get_set_eq σ 4 _ (by omega), hspv]
@@ -242,13 +288,17 @@ theorem md_disjoint_contains (r lower : Region) (a w : Nat) (hd : disjoint r low
   simp only [Region.contains, Bool.and_eq_false_iff, decide_eq_false_iff_not]
   omega
 
-/-- entering: the state between two arms has the return address in the top slot of the native stack -/
+/-- entering: the state between two arms has the return address of the current activation in the slot at rsp; `top` is
+    `rsp + 8`, at least 72 bytes above the base of the native stack.  Leaving: a state with the same invariant, the same
+    eBPF memory and call depth, and matching registers represents `s'`; the bytes above the eBPF stack and the frames of
+    the callers are as before. -/
 theorem md_ns_of_rel0 (retAddr : Nat) (σ : St) (s : State) (h : Rel0 retAddr σ s) :
-    ∃ pre base size, md_NS pre base size σ [retAddr] ∧ 64 ≤ size ∧
-      ∀ (σ' : St) (s' : State), md_NS pre base size σ' [retAddr] → s'.mem = s.mem → s'.frames = [] →
+    ∃ pre base size top hi, md_NS pre base size top hi σ [retAddr] ∧ base + 72 ≤ top ∧
+      ∀ (σ' : St) (s' : State), md_NS pre base size top hi σ' [retAddr] → s'.mem = s.mem →
+        s'.frames.length = s.frames.length →
         (∀ k, k < 11 → σ'.get (regOf k) = s'.reg.getD k 0) → σ'.get 10 = σ.get 10 →
-        Rel0 retAddr σ' s' ∧ topBytes σ' s' = topBytes σ s := by
-  obtain ⟨hregs, hmem, hpkt, hrsp, hret, hfr⟩ := h
+        Rel0 retAddr σ' s' ∧ topBytes σ' s' = topBytes σ s ∧ CallersKept σ σ' s := by
+  obtain ⟨hregs, hmem, hpkt, hrsp, hret, hroom⟩ := h
   obtain ⟨frame, lower, hxm, hfb, hss, hfs, hfbytes, hlb, hls, hpw, hbd⟩ := hmem
   have hxm' : σ.mem = (frame :: s.mem.mbuff :: s.mem.mem :: s.mem.extra) ++ [lower] := by simp [hxm]
   have hpre : ∀ r ∈ (frame :: s.mem.mbuff :: s.mem.mem :: s.mem.extra), ∀ a w, lower.base ≤ a →
@@ -257,12 +307,17 @@ theorem md_ns_of_rel0 (retAddr : Nat) (σ : St) (s : State) (h : Rel0 retAddr σ
     rw [hxm', List.pairwise_append] at hpw
     exact md_disjoint_contains r lower a w (hpw.2.2 r hr lower (by simp)) (by omega) h1 h2 hw
   have hlbd : lower.base + lower.bytes.size < 2 ^ 64 := hbd lower (by rw [hxm']; simp)
-  have hsp : (σ.get 4).toNat = lower.base + lower.bytes.size - 8 := by
-    have : (σ.get X86.RSP) = σ.get 4 := rfl
-    rw [this] at hrsp
-    omega
-  refine ⟨_, lower.base, lower.bytes.size, ⟨⟨lower, hxm', rfl, rfl, ?_⟩, hpre, by simp; omega, by simp; omega, hlbd⟩, hls, ?_⟩
-  · intro j hj k hk
+  have hrsp4 : (σ.get 4).toNat + 8 + 48 * s.frames.length = s.mem.stack.base := hrsp
+  have hroom4 : lower.base + 64 ≤ (σ.get 4).toNat := by
+    obtain ⟨l, hl, hle⟩ := hroom
+    rw [hxm', List.getLast?_append] at hl
+    simp at hl
+    subst hl
+    exact hle
+  have hns0 : md_NS (frame :: s.mem.mbuff :: s.mem.mem :: s.mem.extra) lower.base lower.bytes.size ((σ.get 4).toNat + 8)
+      (fun j => lower.bytes.getD j 0) σ [retAddr] := by
+    refine ⟨⟨lower, hxm', rfl, rfl, ?_, fun _ _ _ => rfl⟩, hpre, by simp; omega, by omega, by simp, hlbd⟩
+    intro j hj k hk
     simp only [List.length_cons, List.length_nil] at hj
     have hj0 : j = 0 := by omega
     subst hj0
@@ -276,44 +331,52 @@ theorem md_ns_of_rel0 (retAddr : Nat) (σ : St) (s : State) (h : Rel0 retAddr σ
     rw [List.getD_eq_getElem?_getD, ← this]
     congr 1
     omega
+  refine ⟨_, _, _, _, _, hns0, by omega, ?_⟩
   · intro σ' s' hns hsm hsf hr10 hpk
+    have habove := fun a w ha => md_ns_above hns0 hns a w ha
     have hread := md_ns_read hns 0 (by simp)
-    obtain ⟨⟨lower', hm', hb', hs', hsl'⟩, _, _, hsp', _⟩ := hns
+    obtain ⟨⟨lower', hm', hb', hs', hsl', _⟩, _, _, _, hsp', _⟩ := hns
     simp only [List.length_cons, List.length_nil] at hsp'
-    constructor
-    · refine ⟨hr10, ?_, by rw [hpk, hpkt, hsm], ?_, ?_, hsf⟩
-      · rw [hsm]
-        refine ⟨frame, lower', by simp [hm'], hfb, hss, hfs, hfbytes, by rw [hb', hs']; exact hlb, by rw [hs']; exact hls, ?_, ?_⟩
-        · rw [hxm', List.pairwise_append] at hpw
-          rw [hm', List.pairwise_append]
-          refine ⟨hpw.1, by simp, ?_⟩
-          intro r hr q hq
-          simp only [List.mem_singleton] at hq
-          subst hq
-          have := hpw.2.2 r hr lower (by simp)
-          unfold disjoint at this ⊢
-          rw [hb', hs']
-          exact this
-        · intro r hr
-          rw [hm'] at hr
-          rw [List.mem_append] at hr
-          rcases hr with hr | hr
-          · exact hbd r (by rw [hxm']; exact List.mem_append_left _ hr)
-          · simp only [List.mem_singleton] at hr
-            subst hr
-            rw [hb', hs']; exact hlbd
-      · show (σ'.get 4).toNat + 8 = _
-        rw [hsm]
-        omega
-      · show readMem σ'.mem (σ'.get 4).toNat 8 = _
-        have : (σ'.get 4).toNat = lower.base + lower.bytes.size - 8 * (0 + 1) := by omega
-        rw [this, hread]
-        rfl
+    have hsp4 : (σ'.get 4).toNat = (σ.get 4).toNat := by omega
+    refine ⟨⟨hr10, ?_, by rw [hpk, hpkt, hsm], ?_, ?_, ?_⟩, ?_, ?_⟩
+    · rw [hsm]
+      refine ⟨frame, lower', by simp [hm'], hfb, hss, hfs, hfbytes, by rw [hb', hs']; exact hlb, by rw [hs']; exact hls, ?_, ?_⟩
+      · rw [hxm', List.pairwise_append] at hpw
+        rw [hm', List.pairwise_append]
+        refine ⟨hpw.1, by simp, ?_⟩
+        intro r hr q hq
+        simp only [List.mem_singleton] at hq
+        subst hq
+        have := hpw.2.2 r hr lower (by simp)
+        unfold disjoint at this ⊢
+        rw [hb', hs']
+        exact this
+      · intro r hr
+        rw [hm'] at hr
+        rw [List.mem_append] at hr
+        rcases hr with hr | hr
+        · exact hbd r (by rw [hxm']; exact List.mem_append_left _ hr)
+        · simp only [List.mem_singleton] at hr
+          subst hr
+          rw [hb', hs']; exact hlbd
+    · show (σ'.get 4).toNat + 8 + 48 * s'.frames.length = _
+      rw [hsm, hsf, hsp4]
+      exact hrsp4
+    · show readMem σ'.mem (σ'.get 4).toNat 8 = _
+      have : (σ'.get 4).toNat = (σ.get 4).toNat + 8 - 8 * (0 + 1) := by omega
+      rw [this, hread]
+      rfl
+    · refine ⟨lower', ?_, ?_⟩
+      · rw [hm', List.getLast?_append]; simp
+      · show lower'.base + 64 ≤ (σ'.get 4).toNat
+        rw [hb', hsp4]; exact hroom4
     · unfold topBytes
       rw [hsm, hm', hxm']
       have hc : frame.contains (s.mem.stack.base + 512) 56 = true := by
         simp [Region.contains]; omega
       simp only [List.cons_append]
       rw [md_readMem_head _ _ _ _ hc, md_readMem_head _ _ _ _ hc]
+    · intro a w ha _
+      exact habove a w ha
 
 end Rbpf.JitSim
